@@ -1158,7 +1158,7 @@ func writeEvidence(id, tier string, seed uint64, m *meta, a *agg, wall float64, 
 		"seed":        seed,
 		"level":       m.Level,
 		"coverage":    cov,
-		"assumptions": m.Assumptions,
+		"assumptions": append([]string{}, m.Assumptions...),
 		"wall_s":      wall,
 		"violations":  violations,
 	}
